@@ -350,12 +350,29 @@ class Orchestrator:  # thailint: ignore[srp]
         """
         violations = []
         for rule in rules:
-            rule_violations = self._safe_check_rule(rule, context)
+            rule_violations = self._drop_suppressed(self._safe_check_rule(rule, context), context)
             _verif_emit(
                 "check", rule=rule.rule_id, path=str(context.file_path), n=len(rule_violations)
             )
             violations.extend(rule_violations)
         return violations
+
+    def _drop_suppressed(
+        self, violations: list[Violation], context: BaseLintContext
+    ) -> list[Violation]:
+        """Apply ignore directives uniformly, also for rules that do not consult the parser.
+
+        The lazy-ignores rule reports on the suppression comments themselves and is left alone.
+        """
+        content = context.file_content
+        if not violations or content is None:
+            return violations
+        return [
+            v
+            for v in violations
+            if v.rule_id.startswith("lazy-ignores")
+            or not self.ignore_parser.should_ignore_violation(v, content)
+        ]
 
     def _safe_check_rule(self, rule: BaseLintRule, context: BaseLintContext) -> list[Violation]:
         """Safely check a rule, returning empty list on error."""
